@@ -501,19 +501,34 @@ def inline_local_functions(fn_node: ast.AST) -> ast.AST:
             buf = st.targets[0].id
             i0 = i - 1
             nxt = next((k for k in range(i0 + 1, len(blk)) if is_alloc(blk[k], buf)), len(blk))
-            in_block = sum(1 for s2 in blk for n in ast.walk(s2) if isinstance(n, ast.Name) and n.id == buf)
-            if in_block != sum(1 for n in ast.walk(f) if isinstance(n, ast.Name) and n.id == buf):
-                continue            # the buffer is visible outside this block
-            pubs = [k for k in range(i0 + 1, nxt) if isinstance(blk[k], ast.Assign) and len(blk[k].targets) == 1 and isinstance(blk[k].targets[0], ast.Attribute)
-                    and isinstance(blk[k].value, ast.Name) and blk[k].value.id == buf]
+            # every other use of the name belongs to a window of its own: it sits in (or under) a statement of some block that is
+            # preceded, in that block, by an allocation of the buffer - or is such an allocation
+            def own_window(n, stop_blk=None) -> bool:
+                """n sits in (or under) a statement of some block - other than stop_blk - that is preceded there by an allocation."""
+                q = n
+                while q is not None and q is not f:
+                    pq = parent(q)
+                    for fld2 in ('body', 'orelse', 'finalbody'):
+                        b2 = getattr(pq, fld2, None) if pq is not None else None
+                        if isinstance(b2, list) and b2 is not stop_blk and any(q is x for x in b2):
+                            k2 = next(ix for ix, x in enumerate(b2) if x is q)
+                            if any(is_alloc(x, buf) for x in b2[:k2 + 1]):
+                                return True
+                    q = pq
+                return False
+            window_nodes = {id(n) for s2 in blk[i0:nxt] for n in ast.walk(s2)}
+            if any(isinstance(n, ast.Name) and n.id == buf and id(n) not in window_nodes and not own_window(n) for n in ast.walk(f)):
+                continue            # the buffer is visible outside its build-publish windows
+            pubs = [k for k in range(i0 + 1, nxt) if isinstance(blk[k], ast.Assign) and len(blk[k].targets) == 1 and isinstance(blk[k].targets[0], (ast.Attribute, ast.Name))
+                    and isinstance(blk[k].value, ast.Name) and blk[k].value.id == buf and norm(blk[k].targets[0]) != buf]
             if len(pubs) != 1:
                 continue
             j = pubs[0]
             pub = blk[j]
             attr_txt = norm(pub.targets[0])
-            if any(isinstance(n, ast.Name) and n.id == buf for s2 in blk[j + 1:nxt] for n in ast.walk(s2)):
+            if any(isinstance(n, ast.Name) and n.id == buf and not own_window(n, stop_blk=blk) for s2 in blk[j + 1:nxt] for n in ast.walk(s2)):
                 continue            # still used after it was published
-            if any(isinstance(n, ast.Attribute) and norm(n) == attr_txt for s2 in blk[i0 + 1:j] for n in ast.walk(s2)):
+            if any(isinstance(n, (ast.Attribute, ast.Name)) and norm(n) == attr_txt for s2 in blk[i0 + 1:j] for n in ast.walk(s2)):
                 continue            # the published attribute is touched while the buffer is being filled
             if any(isinstance(n, ast.Name) and n.id == buf and isinstance(n.ctx, ast.Store) for s2 in blk[i0 + 1:j] for n in ast.walk(s2)):
                 continue
